@@ -44,6 +44,7 @@ type baseLoop struct {
 }
 
 type baseFunc struct {
+	Params []string    `json:"params,omitempty"` // parameter names (receiver first) on the baseline tree
 	Locals []baseLocal `json:"locals"`
 	Hooks  []baseHook  `json:"hooks"`
 	Loops  []baseLoop  `json:"loops,omitempty"`
@@ -162,6 +163,45 @@ func (x *Exec) baselineLocal(name string) *ssa.Alloc {
 			return pick
 		}
 		return nil
+	}
+	return nil
+}
+
+// paramAlias resolves a contract identifier that named a parameter of fn on the baseline tree and names
+// nothing in fn now (the parameter was renamed): the parameter at the same position, if the function
+// still has as many parameters and no parameter, named local or named result carries the old name.
+func (w *World) paramAlias(fn *ssa.Function, name string) *ssa.Parameter {
+	if fn == nil {
+		return nil
+	}
+	key := ""
+	if fn.Pkg != nil && w.P.Verified[fn.Pkg.Pkg.Path()] {
+		key = w.P.ShortName(fn)
+	}
+	bf := loadBaseline().Funcs[key]
+	if bf == nil || len(bf.Params) != len(fn.Params) {
+		return nil
+	}
+	for _, p := range fn.Params {
+		if p.Name() == name {
+			return nil
+		}
+	}
+	for _, a := range namedLocals(fn) {
+		if a.Comment == name {
+			return nil
+		}
+	}
+	for i, old := range bf.Params {
+		if old == name && old != "" && old != "_" {
+			// the new name must not be one the baseline knows as another parameter
+			for j, o2 := range bf.Params {
+				if j != i && o2 == fn.Params[i].Name() {
+					return nil
+				}
+			}
+			return fn.Params[i]
+		}
 	}
 	return nil
 }
@@ -324,6 +364,9 @@ func (s *Session) collectBaseline(into *Baseline) {
 			x.mapHooksText()
 		}()
 		bf := &baseFunc{Locals: localTable(fn)}
+		for _, p := range fn.Params {
+			bf.Params = append(bf.Params, p.Name())
+		}
 		func() {
 			defer func() { recover() }()
 			for _, lc := range fc.Loops {
